@@ -8,6 +8,7 @@ import StathamModel.SerJson
 import StathamModel.Lemmas.SerOk
 import StathamModel.Lemmas.ParseNF
 import StathamModel.Lemmas.SerParses
+import StathamModel.Lemmas.ElemBeq
 import StathamModel.Lemmas.CallVerdict
 import StathamModel.Dedupe
 import StathamModel.Tie
@@ -59,6 +60,10 @@ def Statement : Prop :=
     not `==`. -/
 theorem C06_partial_round_trip (cx : PCtx) (e : Elem) (h : NF cx e) : parseE cx (toSchema e) = e :=
   parse_toSchema cx e h
+
+/-- the form the driver evaluates (`nfBool`: executable, proved sound) -/
+theorem C06_round_trip_decidable (cx : PCtx) (e : Elem) (h : nfBool cx e = true) : parseE cx (toSchema e) = e :=
+  parse_toSchema cx e (nfBool_sound cx e h)
 
 /-- **Proved: the fixpoint form of the property** — once the first parse has produced a normal-form tree, the
     second serialization is the identical document, and so is every later one.  What is not proved is that the first
